@@ -40,6 +40,81 @@ def jn(x):
     return {"__repr__": repr(x)}
 
 
+# ----------------------------------------------------------------------------- dictionaries whose keys are not all text
+
+
+class StrSame(str):
+    """A subclass of str that compares and hashes as str does: `d.get('a')` finds a `StrSame('a')` key."""
+    __slots__ = ()
+
+
+class StrOther(str):
+    """A subclass of str with its own `__eq__` / `__hash__`: equal to other StrOther of the same text only, so
+    `d.get('a')` does not find a `StrOther('a')` key although `str(key) == 'a'`."""
+    __slots__ = ()
+
+    def __eq__(self, other):
+        return type(other) is StrOther and str.__eq__(self, other)
+
+    def __ne__(self, other):
+        return not self.__eq__(other)
+
+    def __hash__(self):
+        return hash(("StrOther", str.__str__(self)))
+
+
+def mk_key(k):
+    """A dictionary key from its JSON form: a JSON string is that `str`; {"__key__": kind, "v": …} anything else."""
+    if isinstance(k, str):
+        return k
+    if not (isinstance(k, dict) and "__key__" in k):
+        raise ValueError("bad key encoding %r" % (k,))
+    kind, v = k["__key__"], k.get("v")
+    if kind == "int":
+        return int(v)
+    if kind == "bool":
+        return bool(v)
+    if kind == "none":
+        return None
+    if kind == "float":
+        return float(v)
+    if kind == "bytes":
+        return bytes.fromhex(v)
+    if kind == "tuple":
+        return tuple(mk_key(x) for x in v)
+    if kind == "date":
+        import datetime
+
+        return datetime.date.fromisoformat(v)
+    if kind == "strsame":
+        return StrSame(v)
+    if kind == "strother":
+        return StrOther(v)
+    raise ValueError("bad key kind %r" % (kind,))
+
+
+def mk_dict(items):
+    """`[[key, value], …]` (keys in their JSON form) as a plain dict, inserted in order (a later equal key overwrites)."""
+    d = {}
+    for k, v in items:
+        d[mk_key(k)] = unj(v)
+    return d
+
+
+def plain_dict(x):
+    """A dictionary of a case: a JSON object (text keys) or {"__items__": [[key, value], …]}."""
+    if isinstance(x, dict) and "__items__" in x:
+        return mk_dict(x["__items__"])
+    return unj(x)
+
+
+def step_dict(st):
+    return mk_dict(st["items"]) if "items" in st else unj(st["dict"])
+
+
+def has_dict(st):
+    return "dict" in st or "items" in st
+
 
 # ----------------------------------------------------------------------------- the call-site layer (public API)
 
@@ -119,11 +194,30 @@ def _rows_of(frame):
     return [jn(list(x)) for x in r] if isinstance(r, list) else None
 
 
+_OBJS = {}
+
+
+def apply_edits(d, st):
+    """`set` / `del` of a step on the dictionary object it names (`dict_id`): the same object is handed over again."""
+    for k, v in st.get("set", []):
+        d[mk_key(k)] = unj(v)
+    for k in st.get("del", []):
+        d.pop(mk_key(k), None)
+    return d
+
+
 def _dict(st):
-    """The dictionary of a step, as a plain dict or one of the standard subclasses."""
+    """The dictionary of a step, as a plain dict or one of the standard subclasses.  A step with a `dict_id` that an
+    earlier step of the session used hands over *that very object* again, after the step's `set` / `del` edits."""
     import collections
 
-    d = unj(st["dict"])
+    if "dict_id" in st:
+        if st["dict_id"] in _OBJS:
+            return apply_edits(_OBJS[st["dict_id"]], st)
+        d = _dict({k: v for k, v in st.items() if k != "dict_id"})
+        _OBJS[st["dict_id"]] = d
+        return d
+    d = step_dict(st)
     k = st.get("dict_kind", "dict")
     if k == "ordered":
         return collections.OrderedDict(d)
@@ -151,7 +245,7 @@ def run_step(st, frames, classes):
         frames[st["id"]] = _frame(st["names"], st["rows"], st.get("lazy", False), st.get("rs"))
         return {"ok": None}
     if op == "dicts":
-        f = DataFrame([unj(d) for d in st["dicts"]])
+        f = DataFrame([plain_dict(d) for d in st["dicts"]])
         frames[st["id"]] = f
         return {"ok": _rows_of(f), "names": list(f.column_names)}
     if op == "arrow":
@@ -169,11 +263,11 @@ def run_step(st, frames, classes):
         return {"ok": None}
     if op == "row":
         cls = classes[st["cls"]]
-        data = _dict(st) if "dict" in st else tuple(unj(st["tuple"]))
+        data = _dict(st) if has_dict(st) else tuple(unj(st["tuple"]))
         return {"ok": jn(list(cls(data)))}
     if op == "append":
         f = frames[st["frame"]]
-        entry = _dict(st) if "dict" in st else tuple(unj(st["tuple"]))
+        entry = _dict(st) if has_dict(st) else tuple(unj(st["tuple"]))
         f.append(entry)
         return {"ok": jn(list(f._rows[-1])), "count": len(f._rows)}
     if op == "collect":
@@ -213,6 +307,7 @@ def run_step(st, frames, classes):
 
 def run_seq(case):
     frames, classes, out = {}, {}, []
+    _OBJS.clear()
     for st in case["steps"]:
         try:
             out.append(run_step(st, frames, classes))
@@ -255,7 +350,7 @@ def run(case):
             return jn(compiled.collect_cython(rows_arg, cols_arg, lim))
         return jn(compiled.collect_cython(rows_arg, cols_arg))
     if fn == "extract":
-        data = unj(case["data"])
+        data = plain_dict(case["data"])
         fields = unj(case["fields"])
         fa = case.get("fields_arg", "tuple")
         fields = tuple(fields) if fa == "tuple" else list(fields) if fa == "list" else None
